@@ -51,7 +51,7 @@ theorem never_rendered (bc : BuildCfg) (up : List Frame) (idx : Nat) (kids : Lis
     (hk : ∃ cs, buildList bc ({ isElem := true, name := "style", attrs := [], elemIdx := idx } :: up) 0 kids = some cs) :
     build bc up idx (.elem "style" true [] kids) = some none := by
   obtain ⟨cs, hk⟩ := hk
-  simp [build, hc, hn, hk, hb, ha, attr]
+  simp [build, hc, hn, hk, hb, ha, attr, elemFrag, elemWrap, elemBase]
 
 /-! non-vacuity: with the user rule `p{display:none}` the document `<div><p>x</p>y</div>` builds to a `div`
     holding only the text `y`; without the rule the paragraph is there -/
